@@ -112,6 +112,11 @@ fn targeted(r: &mut R, f: &crate::domwalk::Flat) -> Sel {
         }
         if r.p(25) {
             s.id = el.node.attr("id").map(|x| x.to_string());
+        } else if r.p(30) {
+            // decoy: an anchor's `name` used as an id selector (`#name` selects by the id attribute only)
+            if let Some(nm) = el.node.attr("name") {
+                s.id = Some(nm.to_string());
+            }
         }
         if r.p(30) {
             let a = r.b(11) as i64 - 5;
